@@ -109,7 +109,7 @@ def component_mass_is_density_times_volume(a: float, b: float, c: float, V: floa
 
 def composite(cls, kids, **attrs):
     """a `cls` object (Composite / Block probe) whose children are `kids`"""
-    parent = new(cls, _children=kids, p=new(PMap, detailedNDens=None, pinNDens=None), parent=None, cached={}, **attrs)
+    parent = new(cls, name="o", _children=kids, p=new(PMap, detailedNDens=None, pinNDens=None), parent=None, cached={}, **attrs)
     for c in kids:
         c.parent = parent
     return parent
@@ -381,3 +381,122 @@ def component_changeNDensByFactor_scales_every_nuclide(n: int, a: float, b: floa
     plain = settable(nuclide_dict(n, a, b, c), V, T)
     plain.changeNDensByFactor(f)
     assert eq(plain.getNumberDensity("A"), f * a) and plain.p.detailedNDens is None and plain.p.pinNDens is None
+
+
+# ----------------------------------------------------------------------------- setters at composite level
+def two_children(k, a1, b1, v1, b2, c2, v2, T):
+    """k = 1..2 settable components: {A,B} and {B,C}: B is in both, A and C in one child each, D in none"""
+    kids = [settable({"A": a1, "B": b1}, v1, T), settable({"B": b2, "C": c2}, v2, T)]
+    return kids[:k]
+
+
+GENC = {"k": (1, 2), "a1": (0.0, 0.1), "b1": (0.0, 0.1), "b2": (0.0, 0.1), "c2": (0.0, 0.1), "v1": (0.01, 500.0), "v2": (0.01, 500.0),
+        "x": (0.0, 0.1), "f": (0.1, 3.0), "T": (20.0, 600.0), "sf": [1.0, 2.0, 3.0], "which": ["A", "B", "C"]}
+
+
+def composite_setNumberDensity_contract(o, nuc, x):
+    old = {m: o.getNumberDensity(m) for m in ("A", "B", "C", "D")}
+    nucs = sorted(o.getNuclides())
+    V = o.getVolume()
+    o.setNumberDensity(nuc, x)
+    assert eq(o.getNumberDensity(nuc), x), "the touched nuclide reads back, at the same level, the requested value"
+    for m in ("A", "B", "C", "D"):
+        if m != nuc:
+            assert eq(o.getNumberDensity(m), old[m]), "every other nuclide's density is unchanged"
+    assert sorted(o.getNuclides()) == nucs and eq(o.getVolume(), V)
+    assert eq(o.getNumberOfAtoms(nuc), x * V / units.CM2_PER_BARN)
+
+
+@lemma(overrides=OV, stubs=ST, gen=GENC)
+def composite_setNumberDensity_reads_back_at_the_same_level(k: int, a1: float, b1: float, v1: float, b2: float, c2: float, v2: float, x: float, T: float):
+    """Composite.setNumberDensity / getChildrenWithNuclides / getVolumeFractions on a Composite with k = 1..2 real Component
+    children, for a nuclide held by every child (B) and by one child only (A)."""
+    assume(v1 > 0 and v2 > 0)
+    k = choose(k, 1, 2)
+    o = composite(Composite, two_children(k, a1, b1, v1, b2, c2, v2, T))
+    composite_setNumberDensity_contract(o, "B", x)
+    composite_setNumberDensity_contract(o, "A", x + 1.0)
+
+
+@lemma(overrides=OV, stubs=ST, gen=GENC)
+def block_setNumberDensity_reads_back_at_the_same_level(sf: float, a1: float, b1: float, v1: float, b2: float, c2: float, v2: float, x: float, T: float):
+    """the same on a cut Block (arbitrary symmetry factor) with two children, for the nuclide held by the second child only (C)
+    and the shared one (B)"""
+    assume(v1 > 0 and v2 > 0 and sf > 0)
+    o = composite(CutBlock, two_children(2, a1, b1, v1, b2, c2, v2, T), sf=sf)
+    composite_setNumberDensity_contract(o, "C", x)
+    composite_setNumberDensity_contract(o, "B", x / 2.0)
+
+
+@lemma(overrides=OV, stubs=ST, gen=GENC)
+def composite_refuses_to_create_a_nuclide_no_child_holds(k: int, a1: float, b1: float, v1: float, b2: float, c2: float, v2: float, x: float, T: float):
+    """Composite.setNumberDensity of a nuclide none of the children holds: refused loudly (ValueError) with nothing changed,
+    unless the requested value is zero (then nothing to do)."""
+    assume(v1 > 0 and v2 > 0)
+    k = choose(k, 1, 2)
+    o = composite(Composite, two_children(k, a1, b1, v1, b2, c2, v2, T))
+    old = {m: o.getNumberDensity(m) for m in ("A", "B", "C", "D")}
+    try:
+        o.setNumberDensity("D", x)
+        refused = False
+    except ValueError:
+        refused = True
+    assert refused == (x != 0), "refused exactly when a non-zero density is requested"
+    for m in ("A", "B", "C", "D"):
+        assert eq(o.getNumberDensity(m), old[m]), "nothing changed"
+    assert implies(not refused, eq(o.getNumberDensity("D"), x))
+
+
+def scaled_contract(o, f, present):
+    old = {m: o.getNumberDensity(m) for m in ("A", "B", "C", "D")}
+    V = o.getVolume()
+    o.changeNDensByFactor(f)
+    for m in ("A", "B", "C", "D"):
+        assert eq(o.getNumberDensity(m), f * old[m]), "each nuclide reads back, at the same level, factor x its old density"
+    assert sorted(o.getNuclides()) == present and eq(o.getVolume(), V)
+
+
+@lemma(overrides=OV, stubs=ST, gen=GENC)
+def composite_changeNDensByFactor_scales_every_nuclide(k: int, a1: float, b1: float, v1: float, b2: float, c2: float, v2: float, f: float, T: float, d1: float):
+    """Composite.changeNDensByFactor -> getNumberDensities -> setNumberDensities -> updateNumberDensities (the de-homogenising
+    distribution over the children that hold each nuclide) on a Composite with k = 1..2 real Component children.
+    Precondition (class invariant given through the parameter map): the object's parameter collection HAS detailedNDens and
+    pinNDens (None or a vector) - real Block / Assembly / Core collections lack one of them: known findings F47 / F51 / F59."""
+    assume(v1 > 0 and v2 > 0)
+    k = choose(k, 1, 2)
+    o = composite(Composite, two_children(k, a1, b1, v1, b2, c2, v2, T))
+    scaled_contract(o, f, ["A", "B"] if k == 1 else ["A", "B", "C"])
+    assert o.p.detailedNDens is None and o.p.pinNDens is None
+    o.p.detailedNDens = np.array([d1, 1.0])
+    o.p.pinNDens = np.array([2.0, d1])
+    o.changeNDensByFactor(f)
+    assert eq(o.p.detailedNDens[0], f * d1) and eq(o.p.detailedNDens[1], f) and eq(o.p.pinNDens[0], 2.0 * f) and eq(o.p.pinNDens[1], f * d1)
+
+
+@lemma(overrides=OV, stubs=ST, gen=GENC)
+def block_changeNDensByFactor_scales_every_nuclide(sf: float, a1: float, b1: float, v1: float, b2: float, c2: float, v2: float, f: float, T: float):
+    """the same on a cut Block (arbitrary symmetry factor) with two children; its mass scales by the factor"""
+    weights_positive()
+    assume(v1 > 0 and v2 > 0 and sf > 0)
+    o = composite(CutBlock, two_children(2, a1, b1, v1, b2, c2, v2, T), sf=sf)
+    m0 = o.getMass()
+    mB = o.getMass("B")
+    scaled_contract(o, f, ["A", "B", "C"])
+    assert eq(o.getMass(), f * m0) and eq(o.getMass("B"), f * mB)
+
+
+@lemma(overrides=OV, stubs=ST, gen=GENC)
+def composite_update_and_set_number_densities(k: int, a1: float, b1: float, v1: float, b2: float, c2: float, v2: float, x: float, f: float, T: float):
+    """Composite.updateNumberDensities: listed nuclides (held by all / one / NO child) read back at the same level, unlisted are
+    unchanged; Composite.setNumberDensities: listed read back, everything not listed reads zero.  k = 1..2 children."""
+    assume(v1 > 0 and v2 > 0)
+    k = choose(k, 1, 2)
+    o = composite(Composite, two_children(k, a1, b1, v1, b2, c2, v2, T))
+    old = {m: o.getNumberDensity(m) for m in ("A", "B", "C", "D")}
+    o.updateNumberDensities({"B": x, "D": f})
+    assert eq(o.getNumberDensity("B"), x), "a nuclide every child holds reads back"
+    assert eq(o.getNumberDensity("D"), f), "a nuclide no child held is created everywhere and reads back"
+    assert eq(o.getNumberDensity("A"), old["A"]) and eq(o.getNumberDensity("C"), old["C"]), "unlisted nuclides unchanged"
+    o.setNumberDensities({"A": x})
+    assert eq(o.getNumberDensity("A"), x), "a nuclide one child holds reads back"
+    assert eq(o.getNumberDensity("B"), 0.0) and eq(o.getNumberDensity("C"), 0.0) and eq(o.getNumberDensity("D"), 0.0), "everything not listed is cleared"
